@@ -1,0 +1,154 @@
+//go:build verif
+
+package go9p
+
+// Schedule/trace points and read-only accessors for the out-of-tree
+// verification harness (build tag "verif"). Nothing here changes behaviour
+// unless a harness installs a hook.
+
+// VerifHook, if set, is called at the named schedule points of the server.
+// It may block: every point lies outside the library's critical sections.
+var VerifHook func(point string, conn *Conn, req *SrvReq, nums []int)
+
+// VerifClntHook is the client-side counterpart.
+var VerifClntHook func(point string, clnt *Clnt, req *Req, nums []int)
+
+func verifPoint(point string, conn *Conn, req *SrvReq, nums ...int) {
+	if h := VerifHook; h != nil {
+		h(point, conn, req, nums)
+	}
+}
+
+func verifCPoint(point string, clnt *Clnt, req *Req, nums ...int) {
+	if h := VerifClntHook; h != nil {
+		h(point, clnt, req, nums)
+	}
+}
+
+// VerifReqInfo is a snapshot of one server request.
+type VerifReqInfo struct {
+	Req       *SrvReq
+	Tag       uint16
+	Type      uint8
+	Flush     bool
+	Work      bool
+	Responded bool
+	Saved     bool
+	Next      *SrvReq
+	Prev      *SrvReq
+	Flushreq  *SrvReq
+}
+
+// VerifFidInfo is a snapshot of one server fid.
+type VerifFidInfo struct {
+	Fid      uint32
+	Refcount int
+	Opened   bool
+	Omode    uint8
+	Type     uint8
+}
+
+// VerifConnInfo is a snapshot of a connection's tables.
+type VerifConnInfo struct {
+	Msize uint32
+	Dotu  bool
+	Npend int
+	Reqs  map[uint16][]VerifReqInfo // per tag: newest first, following next
+	Fids  map[uint32]VerifFidInfo
+}
+
+func verifReqInfo(r *SrvReq) VerifReqInfo {
+	r.Lock()
+	defer r.Unlock()
+	return VerifReqInfo{
+		Req: r, Tag: r.Tc.Tag, Type: r.Tc.Type,
+		Flush:     r.status&reqFlush != 0,
+		Work:      r.status&reqWork != 0,
+		Responded: r.status&reqResponded != 0,
+		Saved:     r.status&reqSaved != 0,
+		Next:      r.next, Prev: r.prev, Flushreq: r.flushreq,
+	}
+}
+
+// VerifReqSnapshot returns the status bits and links of one request.
+func VerifReqSnapshot(r *SrvReq) VerifReqInfo {
+	r.Conn.Lock()
+	defer r.Conn.Unlock()
+	return verifReqInfo(r)
+}
+
+// VerifConnSnapshot returns a consistent copy of the request and fid tables.
+func VerifConnSnapshot(conn *Conn) *VerifConnInfo {
+	ci := &VerifConnInfo{Reqs: map[uint16][]VerifReqInfo{}, Fids: map[uint32]VerifFidInfo{}}
+	conn.Lock()
+	defer conn.Unlock()
+	ci.Msize = conn.Msize
+	ci.Dotu = conn.Dotu
+	ci.Npend = conn.npend
+	for tag, r := range conn.reqs {
+		for rr := r; rr != nil; rr = rr.next {
+			ci.Reqs[tag] = append(ci.Reqs[tag], verifReqInfo(rr))
+		}
+	}
+	for no, f := range conn.fidpool {
+		f.Lock()
+		ci.Fids[no] = VerifFidInfo{Fid: no, Refcount: f.refcount, Opened: f.opened, Omode: f.Omode, Type: f.Type}
+		f.Unlock()
+	}
+	return ci
+}
+
+// VerifSrvConns returns the connections currently registered with the server.
+func VerifSrvConns(srv *Srv) []*Conn {
+	srv.Lock()
+	defer srv.Unlock()
+	var cs []*Conn
+	for c := range srv.conns {
+		cs = append(cs, c)
+	}
+	return cs
+}
+
+// VerifFidNo returns the fid number of a server fid.
+func VerifFidNo(f *SrvFid) uint32 { return f.fid }
+
+// VerifClntInfo is a snapshot of a client's request list and pools.
+type VerifClntInfo struct {
+	Outstanding []uint16 // tags of listed requests, in list order
+	Failed      bool     // sticky error set
+	FreeTags    int      // tags in the pool
+	CachedReqs  int      // requests parked in reqchan (they keep their tag)
+	CachedTags  []uint16
+}
+
+// VerifClntSnapshot returns the client's bookkeeping. The cached requests
+// are drained and put back, so call it only while the client is quiescent.
+func VerifClntSnapshot(clnt *Clnt) *VerifClntInfo {
+	ci := &VerifClntInfo{}
+	clnt.Lock()
+	for r := clnt.reqfirst; r != nil; r = r.next {
+		ci.Outstanding = append(ci.Outstanding, r.Tc.Tag)
+	}
+	ci.Failed = clnt.err != nil
+	clnt.Unlock()
+	ci.FreeTags = len(clnt.tagpool.id)
+	var rs []*Req
+	for {
+		select {
+		case r := <-clnt.reqchan:
+			rs = append(rs, r)
+			continue
+		default:
+		}
+		break
+	}
+	for _, r := range rs {
+		ci.CachedTags = append(ci.CachedTags, r.tag)
+		clnt.reqchan <- r
+	}
+	ci.CachedReqs = len(rs)
+	return ci
+}
+
+// VerifReqTag returns the tag a client request carries.
+func VerifReqTag(r *Req) uint16 { return r.tag }
